@@ -160,4 +160,6 @@ def run(ctx):
     rep.floor('R13.1', 'leaves surviving the round trip', n_leaves, 30 * len(ctx.suite_names))
     from rules import profile
     profile.check(ctx, rep, 'R13.P', [DECODERS[n] + '::deserialize' for n in STATE_TYPES] + [DECODERS[n] + '::serialize' for n in STATE_TYPES])
+    from rules import lclone
+    lclone.check(ctx, rep, 'R13.C')
     return rep
